@@ -2,6 +2,8 @@ package props
 
 import (
 	"go/ast"
+	"go/constant"
+	"go/token"
 	"go/types"
 	"sort"
 	"strings"
@@ -290,54 +292,131 @@ func c14(c *an.Ctx) {
 
 	c.Check("R-SHAPE", "getType: NonNull exactly for Go shapes that cannot be nil (enum, value scalar, value struct, slice); bare type for pointer shapes", 6, func(o *an.O) {
 		fn := c.NeedFunc(sbp, "(*schemaBuilder).getType")
-		seen := map[string]bool{}
-		for _, e := range an.Exits(fn, false) {
-			ret := e.(*ssa.Return)
-			if !isConstNil(an.ResultAt(ret, 1)) {
-				continue
-			}
-			v := an.StripConv(an.ResultAt(ret, 0))
-			gs := strings.Join(an.GuardStrings(e.Block()), " ; ")
-			isNonNull := false
-			if al, ok := v.(*ssa.Alloc); ok {
-				if n := an.NamedOf(al.Type()); n != nil && n.Obj().Name() == "NonNull" {
-					isNonNull = true
-				}
-			}
-			shape := ""
-			switch {
-			case strings.Contains(gs, "getEnum(") && strings.Contains(gs, "#2") && !strings.Contains(gs, "!sb.getEnum"):
-				shape = "enum"
-			case strings.Contains(gs, "getScalar(nodeType.Elem())#1") && !strings.Contains(gs, "!schemabuilder.getScalar(nodeType.Elem())#1"):
-				shape = "pointer-scalar"
-			case strings.Contains(gs, "getScalar(nodeType)#1") && !strings.Contains(gs, "!schemabuilder.getScalar(nodeType)#1"):
-				shape = "value-scalar"
-			case strings.Contains(gs, "(nodeType.Elem().Kind() == 25)") && !strings.Contains(gs, "!(nodeType.Elem().Kind() == 25)"):
-				shape = "pointer-struct"
-			case strings.Contains(gs, "(nodeType.Kind() == 25)") && !strings.Contains(gs, "!(nodeType.Kind() == 25)"):
-				shape = "value-struct"
-			case strings.Contains(gs, "(nodeType.Kind() == 23)"):
-				shape = "slice"
-			case strings.Contains(an.Expr(v), "getTextMarshalerType"):
-				continue
-			}
-			if shape == "" {
-				continue
-			}
-			o.Site(e)
-			seen[shape] = true
-			wantNonNull := shape == "enum" || shape == "value-scalar" || shape == "value-struct" || shape == "slice"
-			if isNonNull != wantNonNull {
-				if wantNonNull {
-					o.FailAt(e, "getType advertises a nullable type for a %s, which Go can never return as nil (harmless for clients but it disagrees with the mapping the rest relies on)", shape)
-				} else {
-					o.FailAt(e, "getType advertises NonNull for a %s although the resolver can return nil: the response would contain null where the schema promises a value (or every nil fails the query)", shape)
-				}
-			}
+		nodeType := ssa.Value(fn.Params[1])
+		rp := p.ExtPkg("reflect")
+		an.Need(rp != nil, "package reflect")
+		kind := func(name string) int64 {
+			obj, ok := rp.Types.Scope().Lookup(name).(*types.Const)
+			an.Need(ok, "reflect."+name)
+			n, _ := constant.Int64Val(obj.Val())
+			return n
 		}
-		for _, s := range []string{"enum", "value-scalar", "pointer-scalar", "value-struct", "pointer-struct", "slice"} {
-			if !seen[s] {
-				o.Fail(p.Pos(fn.Pos()), "getType: cannot find the return for the %s shape", s)
+		// receiver of a reflect.Type method call: "v" for nodeType, "e" for nodeType.Elem()
+		var which func(v ssa.Value) string
+		which = func(v ssa.Value) string {
+			if v == nodeType {
+				return "v"
+			}
+			if call, ok := v.(*ssa.Call); ok && call.Call.IsInvoke() && call.Call.Method.Name() == "Elem" && call.Call.Value == nodeType {
+				return "e"
+			}
+			return ""
+		}
+		type shape struct {
+			name         string
+			enum, sv, sp bool
+			kindV, kindE int64
+			wantNonNull  bool
+		}
+		shapes := []shape{
+			{"enum", true, false, false, kind("Int32"), 0, true},
+			{"value-scalar", false, true, false, kind("Int64"), 0, true},
+			{"pointer-scalar", false, false, true, kind("Ptr"), kind("Int64"), false},
+			{"value-struct", false, false, false, kind("Struct"), 0, true},
+			{"pointer-struct", false, false, false, kind("Ptr"), kind("Struct"), false},
+			{"slice", false, false, false, kind("Slice"), kind("Int64"), true},
+		}
+		for _, sh := range shapes {
+			sh := sh
+			sim := &an.BoolSim{Fn: fn, Atom: func(v ssa.Value) (bool, bool) {
+				switch x := v.(type) {
+				case *ssa.Extract:
+					call, ok := x.Tuple.(*ssa.Call)
+					if !ok {
+						return false, false
+					}
+					f := an.CalleeFunc(call.Common())
+					if f == nil {
+						return false, false
+					}
+					last := call.Call.Signature().Results().Len() - 1
+					if x.Index != last {
+						return false, false
+					}
+					args := call.Call.Args
+					switch f.Name() {
+					case "getEnum":
+						if which(args[len(args)-1]) == "v" {
+							return sh.enum, true
+						}
+					case "getScalar":
+						switch which(args[len(args)-1]) {
+						case "v":
+							return sh.sv, true
+						case "e":
+							return sh.sp, true
+						}
+					}
+				case *ssa.Call:
+					if x.Call.IsInvoke() && x.Call.Method.Name() == "Implements" && x.Call.Value == nodeType {
+						return false, true // text marshalers are a separate obligation
+					}
+				case *ssa.BinOp:
+					if x.Op != token.EQL && x.Op != token.NEQ {
+						return false, false
+					}
+					for _, pr := range [][2]ssa.Value{{x.X, x.Y}, {x.Y, x.X}} {
+						k, ok := an.ConstInt(pr[1])
+						call, isCall := pr[0].(*ssa.Call)
+						if !ok || !isCall || !call.Call.IsInvoke() || call.Call.Method.Name() != "Kind" {
+							continue
+						}
+						switch which(call.Call.Value) {
+						case "v":
+							return (sh.kindV == k) == (x.Op == token.EQL), true
+						case "e":
+							return (sh.kindE == k) == (x.Op == token.EQL), true
+						}
+					}
+				}
+				return false, false
+			}}
+			reached := sim.Run()
+			n := 0
+			for _, e := range an.Exits(fn, false) {
+				ret, ok := e.(*ssa.Return)
+				if !ok || !reached[e.Block()] {
+					continue
+				}
+				for _, errv := range sim.ValuesAt(an.ResultAt(ret, 1), e.Block()) {
+					if !isConstNil(errv) {
+						continue
+					}
+					for _, rv := range sim.ValuesAt(an.ResultAt(ret, 0), e.Block()) {
+						v := an.StripConv(rv)
+						if strings.Contains(an.Expr(v), "getTextMarshalerType") {
+							continue
+						}
+						n++
+						o.Site(e)
+						isNonNull := false
+						if al, ok := v.(*ssa.Alloc); ok {
+							if nn := an.NamedOf(al.Type()); nn != nil && nn.Obj().Name() == "NonNull" {
+								isNonNull = true
+							}
+						}
+						if isNonNull != sh.wantNonNull {
+							if sh.wantNonNull {
+								o.FailAt(e, "getType advertises a nullable type for a %s, which Go can never return as nil (harmless for clients but it disagrees with the mapping the rest relies on)", sh.name)
+							} else {
+								o.FailAt(e, "getType advertises NonNull for a %s although the resolver can return nil: the response would contain null where the schema promises a value (or every nil fails the query)", sh.name)
+							}
+						}
+					}
+				}
+			}
+			if n == 0 {
+				o.Fail(p.Pos(fn.Pos()), "getType: cannot find the return for the %s shape", sh.name)
 			}
 		}
 	})
